@@ -36,7 +36,7 @@ func init() {
 		Tech:  "symbolic affine execution (recurrences of VAlign/PackRight, separation dominance of the NS positioner, Y assignment, component shift), ownership table",
 		Rules: []string{"AFF-4", "AFF-7", "FLOW-1", "AFF-5", "EFF-3", "OWN-1", "ORD-4", "PROG-1", "WIDTH-1"},
 		Explanation: "AFF-4: VAlign and PackRight place neighbours exactly W + NodeSpacing apart, so no overlap and >= spacing for all widths >= 0; AFF-7: the NetworkSimplex positioner's separation constraint dominates W_left + spacing; FLOW-1 (with AFF-6): the next component starts at the rightmost edge + spacing; " +
-			"AFF-5/EFF-3: vertical disjointness of bands; OWN-1: X/Y only from phase 4; ORD-4: X = auxiliary layer >= 0; PROG-1: SinkColoring's overlap removal repeats only under a strict overlap test and moves the node to at least the compared bound. Not decided: convergence and completeness of SinkColoring's placeBlock fix-point (the default positioner), finiteness, the integer rounding of the auxiliary graph, that the last node of a layer is the rightmost.",
+			"AFF-5/EFF-3: vertical disjointness of bands; OWN-1: X/Y only from phase 4; ORD-4: X = auxiliary layer >= 0; PROG-1: SinkColoring's overlap removal repeats only under a strict overlap test, moves the node to at least the compared bound, and compares with exactly the position it enforces (left neighbour + block width + spacing), so the fix-point implies the separation; WIDTH-1: a block's width is the maximum of its members' widths, so every node fits the slot reserved for its block. Not decided: that SinkColoring's placeBlock fix-point is reached (an upper bound on the coordinates), finiteness, the integer rounding of the auxiliary graph, that the last node of a layer is the rightmost.",
 		Assumptions: []string{"sizes and spacings are finite and non-negative (property hypothesis)"},
 	})
 	registerProp(&Property{
